@@ -57,7 +57,7 @@ structure Pt where
   conds  : List Nat := []
   noMeta : Bool := false
   bucket : List (Nat × Nat) := []
-  deriving Repr, Inhabited
+  deriving Repr, Inhabited, DecidableEq
 
 def Pt.get (p : Pt) (n : String) : Option Rat := (p.vals.find? (·.1 == n)).map (·.2)
 def Pt.includes (p : Pt) (c : Nat) : Bool := p.noMeta || p.conds.contains c
